@@ -680,6 +680,37 @@ func (app *App) methodInt(s string) int {
 	return slices.Index(app.config.RequestMethods, s)
 }
 
+// sanitizeHeaderValue replaces the bytes that are invalid and dangerous in a field value
+// (CR, LF and NUL, RFC 9110 section 5.5) with a space, as fasthttp's Header.Set does for CR and LF:
+// a value handed to a response helper can neither add a header line nor start the body.
+func sanitizeHeaderValue(val string) string {
+	if !strings.ContainsAny(val, "\r\n\x00") {
+		return val
+	}
+	b := []byte(val)
+	for i, ch := range b {
+		if ch == '\r' || ch == '\n' || ch == 0 {
+			b[i] = ' '
+		}
+	}
+	return string(b)
+}
+
+// sanitizeCookieValue is sanitizeHeaderValue for cookie values, which leaves NUL alone because
+// the flash cookie carries raw MessagePack.
+func sanitizeCookieValue(val string) string {
+	if !strings.ContainsAny(val, "\r\n") {
+		return val
+	}
+	b := []byte(val)
+	for i, ch := range b {
+		if ch == '\r' || ch == '\n' {
+			b[i] = ' '
+		}
+	}
+	return string(b)
+}
+
 func (app *App) method(methodInt int) string {
 	return app.config.RequestMethods[methodInt]
 }
